@@ -1,18 +1,27 @@
 (* C10/Model.v -- an ownership model of inmem::index::SimpleTermIndex and of the stores built on
    it.  Heap allocations (the Box<str> behind each owned MownStr) have identities; the keys of
-   `t2i` OWN allocations, the entries of `i2t` only POINT to allocations (for a quoted triple:
-   one pointer per atom string, held in a Box that i2t owns).  Moving a store, std::mem::swap
-   and hash-table growth move the SimpleTerm values but never the string allocations.
-   Definitions only. *)
+   `t2i` OWN allocations.  Three designs of the index table `i2t` are modelled (`clone_mode`):
+     Derived  the entries of `i2t` BORROW the text of the keys (transmuted to 'static), Clone is derived
+              (the original code: a clone's table points into the original's keys);
+     Rebuilt  the entries borrow, Clone rebuilds the table from the clone's own keys (first repair:
+              stores are independent, but `get_term` hands out `&SimpleTerm<'static>`, and a
+              `Clone::clone` of such a term keeps pointing into the store after the store is gone);
+     Owned    every entry of `i2t` OWNS its own copy of the text (`i2t.push(key.clone())`), Clone clones
+              both maps (the current code).
+   Moving a store, std::mem::swap and hash-table growth move the SimpleTerm values but never the
+   string allocations.  Definitions only. *)
 From Sophia.Common Require Export Prelude.
 
 Definition aid := N.                       (* allocation identity *)
 Definition tid := N.                       (* the term (its content) *)
 
-(* k_quoted: the term is a quoted triple; SimpleTerm::from_term_ref deep-copies those, so the
-   i2t entry owns its own strings (s_self) instead of pointing into the key *)
+(* k_quoted: the term is a quoted triple; in the borrowing designs SimpleTerm::from_term_ref
+   deep-copies those, so the i2t entry owns its own strings (s_self) instead of pointing into the key
+   (the allocations of that deep copy are not tracked: s_ptrs = []) *)
 Record key := mkKey { k_term : tid; k_owned : list aid; k_index : N; k_quoted : bool }.
-Record slot := mkSlot { s_term : tid; s_ptrs : list aid; s_self : bool }.     (* one entry of i2t *)
+(* one entry of i2t.  s_self = true: the entry OWNS the allocations s_ptrs (its own copy of the text);
+   s_self = false: the entry borrows, s_ptrs are the allocations of the key it was made from *)
+Record slot := mkSlot { s_term : tid; s_ptrs : list aid; s_self : bool }.
 Definition slot_of (k : key) : slot :=
   if k_quoted k then mkSlot (k_term k) [] true else mkSlot (k_term k) (k_owned k) false.
 Record store := mkStore { keys : list key; i2t : list slot }.
@@ -36,15 +45,25 @@ Fixpoint fresh (n : nat) (from : aid) : list aid :=
 
 Definition has_term (s : store) (t : tid) : bool := existsb (fun k => N.eqb (k_term k) t) (keys s).
 
+Inductive clone_mode := Derived | Rebuilt | Owned.
+
 (* ensure_index: a new term gets fresh allocations (SimpleTerm::from_term copies the strings),
-   the key owns them, i2t points to them; `nstr` = number of strings of the term (>= 1) *)
-Definition ensure (w : world) (s : store) (t : tid) (nstr : nat) (quoted : bool) : world * store :=
+   the key owns them; `nstr` = number of strings of the term (>= 1).  Borrowing designs: i2t points
+   to them.  Owned: `key.clone()` -- MownStr::clone of an owned string allocates -- i2t owns a second
+   set of fresh allocations. *)
+Definition ensure (m : clone_mode) (w : world) (s : store) (t : tid) (nstr : nat) (quoted : bool) : world * store :=
   if has_term s t then (w, s)
   else
     let a := fresh nstr (next w) in
     let k := mkKey t a (N.of_nat (length (i2t s))) quoted in
-    (mkWorld (next w + N.of_nat nstr) (freed w) (live w),
-     mkStore (keys s ++ [k]) (i2t s ++ [slot_of k])).
+    match m with
+    | Owned =>
+        (mkWorld (next w + N.of_nat nstr + N.of_nat nstr) (freed w) (live w),
+         mkStore (keys s ++ [k]) (i2t s ++ [mkSlot t (fresh nstr (next w + N.of_nat nstr)) true]))
+    | _ =>
+        (mkWorld (next w + N.of_nat nstr) (freed w) (live w),
+         mkStore (keys s ++ [k]) (i2t s ++ [slot_of k]))
+    end.
 
 (* Clone of the keys: HashMap::clone clones every key; MownStr::clone of an OWNED string makes a
    fresh allocation *)
@@ -69,15 +88,35 @@ Fixpoint rebuild (ks : list key) (n : nat) (i : N) : list slot :=
            end
   end.
 
-Inductive clone_mode := Derived | Rebuilt.
-(* #[derive(Clone)] clones i2t element-wise: MownStr::clone of a BORROWED string copies the
-   pointer.  The repaired Clone rebuilds i2t from the clone's own keys, in index order. *)
+(* Vec::clone of i2t, element-wise: an entry that owns its text gets fresh allocations, a borrowing
+   one keeps its pointers *)
+Fixpoint clone_slots (l : list slot) (from : aid) : list slot * aid :=
+  match l with
+  | [] => ([], from)
+  | sl :: r =>
+      if s_self sl then
+        let n := length (s_ptrs sl) in
+        let '(r', nx) := clone_slots r (from + N.of_nat n) in
+        (mkSlot (s_term sl) (fresh n from) true :: r', nx)
+      else
+        let '(r', nx) := clone_slots r from in (sl :: r', nx)
+  end.
+
+(* Derived: #[derive(Clone)] clones i2t element-wise: MownStr::clone of a BORROWED string copies the
+   pointer.  Rebuilt: i2t is rebuilt from the clone's own keys, in index order.  Owned: both maps are
+   cloned, every string of both is a fresh allocation. *)
 Definition clone_store (m : clone_mode) (w : world) (s : store) : world * store :=
   let '(ks, nx) := clone_keys (keys s) (next w) in
-  (mkWorld nx (freed w) (live w),
-   mkStore ks (match m with Derived => i2t s | Rebuilt => rebuild ks (length ks) 0 end)).
+  match m with
+  | Derived => (mkWorld nx (freed w) (live w), mkStore ks (i2t s))
+  | Rebuilt => (mkWorld nx (freed w) (live w), mkStore ks (rebuild ks (length ks) 0))
+  | Owned => let '(sls, nx2) := clone_slots (i2t s) nx in
+             (mkWorld nx2 (freed w) (live w), mkStore ks sls)
+  end.
 
-Definition owned_by (s : store) : list aid := flat_map k_owned (keys s).
+(* what a store owns (and frees when dropped): the text of its keys and of the entries that own theirs *)
+Definition slot_owned (sl : slot) : list aid := if s_self sl then s_ptrs sl else [].
+Definition owned_by (s : store) : list aid := flat_map k_owned (keys s) ++ flat_map slot_owned (i2t s).
 
 Inductive op :=
 | New (sid : N)
@@ -97,7 +136,7 @@ Definition step (m : clone_mode) (w : world) (o : op) : world :=
   | Insert sid t n qd =>
       match find_store (live w) sid with
       | None => w
-      | Some s => let '(w', s') := ensure w s t (S n) qd in
+      | Some s => let '(w', s') := ensure m w s t (S n) qd in
                   mkWorld (next w') (freed w') (set_store (live w') sid s')
       end
   | Clone src dst =>
@@ -130,26 +169,64 @@ Definition read (w : world) (s : store) (i : nat) : rd :=
   match nth_error (i2t s) i with
   | None => ReadOutOfRange
   | Some sl =>
-      if s_self sl then ReadOk (s_term sl)
-      else if existsb (fun a => aid_in a (freed w)) (s_ptrs sl) then ReadFreed
+      if existsb (fun a => aid_in a (freed w)) (s_ptrs sl) then ReadFreed
+      else if s_self sl then ReadOk (s_term sl)
       else match key_at (keys s) (N.of_nat i) with
            | Some k => if list_eqb N.eqb (s_ptrs sl) (k_owned k) then ReadOk (s_term sl) else ReadForeign
            | None => ReadForeign
            end
   end.
 
-(* what the verif_audit hook computes: for each index, do the pointers of i2t[i] equal the
-   allocations of the key mapped to i *)
+(* what the verif_audit hook computes: for each index i, is there a key mapped to i, does i2t[i]
+   hold that key's term, as an owned copy or as a borrow of that very key *)
 Fixpoint audit_from (ks : list key) (i : N) (l : list slot) : list bool :=
   match l with
   | [] => []
-  | sl :: r => (s_self sl ||
-                match key_at ks i with
-                | Some k => list_eqb N.eqb (s_ptrs sl) (k_owned k)
-                | None => false
-                end) :: audit_from ks (i + 1) r
+  | sl :: r => match key_at ks i with
+               | Some k => N.eqb (s_term sl) (k_term k) && (s_self sl || list_eqb N.eqb (s_ptrs sl) (k_owned k))
+               | None => false
+               end :: audit_from ks (i + 1) r
   end.
+
+(* A term handed out by get_term is a `&SimpleTerm<'static>`; the caller may Clone::clone it and keep the
+   clone (nothing ties it to the store any more).  MownStr::clone: an owned string is copied into a fresh
+   allocation that now belongs to the caller; a borrowed one keeps pointing where it pointed. *)
+Definition clone_term (w : world) (sl : slot) : world * slot :=
+  if s_self sl then
+    (mkWorld (next w + N.of_nat (length (s_ptrs sl))) (freed w) (live w),
+     mkSlot (s_term sl) (fresh (length (s_ptrs sl)) (next w)) true)
+  else (w, sl).
+(* reading a term the caller kept *)
+Definition read_term (w : world) (sl : slot) : rd :=
+  if existsb (fun a => aid_in a (freed w)) (s_ptrs sl) then ReadFreed else ReadOk (s_term sl).
 Definition audit (s : store) : list bool := audit_from (keys s) 0 (i2t s).
+
+(* ---- compound operations of the harness, expressed in the op alphabet (definitions only) ----
+   Clone::clone_from: the target's old content is dropped, then it is a clone of the source.
+   std::mem::take / mem::replace: the content moves to a free slot, a fresh empty store stays.
+   overwrite (`*slot = fresh`): drop, then a fresh empty store in the same slot.
+   clone of a clone, the intermediate clone dropped.
+   clone through a container that makes extra clones and drops them (vec![x; n], resize, array, tuple).
+   from_triple_source / from_quad_source / collect_* / insert_all into a new store: the fold of the single
+   inserts, from the empty store, over the terms of the source's statements in iteration order. *)
+Definition clone_from_ops (src dst : N) : list op := [Drop dst; Clone src dst].
+Definition take_ops (src dst : N) : list op := [New dst; Swap src dst].
+Definition overwrite_ops (sid : N) : list op := [Drop sid; New sid].
+Definition clone_chain_ops (src tmp dst : N) : list op := [Clone src tmp; Clone tmp dst; Drop tmp].
+Definition clone_via_ops (src dst : N) (tmps : list N) : list op :=
+  map (Clone src) tmps ++ [Clone src dst] ++ map Drop tmps.
+Definition ins_of (dst : N) (x : tid * nat * bool) : op := Insert dst (fst (fst x)) (snd (fst x)) (snd x).
+Definition collect_ops (dst : N) (ts : list (tid * nat * bool)) : list op := New dst :: map (ins_of dst) ts.
+
+(* what a store returns, by index *)
+Definition content (s : store) : list tid := map s_term (i2t s).
+Definition terms_of (s : store) : list tid := map k_term (keys s).
+(* the terms of a sequence, first occurrences only, after those already seen *)
+Fixpoint add_new (seen : list tid) (ts : list tid) : list tid :=
+  match ts with
+  | [] => seen
+  | t :: r => add_new (if existsb (fun x => N.eqb x t) seen then seen else seen ++ [t]) r
+  end.
 
 (* harness-facing: after the whole history, per live store: audit vector and content by index *)
 Definition observe (w : world) : list (N * list bool * list tid) :=
@@ -164,4 +241,4 @@ Fixpoint ins_obs (x : N * list bool * list tid) (l : list (N * list bool * list 
   end.
 Definition sort_obs l := fold_right ins_obs [] l.
 Definition history_ok (ops : list op) (observed : list (N * list bool * list tid)) : bool :=
-  list_eqb obs_eqb (sort_obs (observe (run Rebuilt ops))) (sort_obs observed).
+  list_eqb obs_eqb (sort_obs (observe (run Owned ops))) (sort_obs observed).
